@@ -18,7 +18,7 @@ import math
 from typing import Any
 
 from ..core import HarnessError, Violation
-from ..scope_model import scope_ids
+from ..scope_model import child_name, scope_ids
 from ..vloop import Deadlock, run_virtual
 
 UNIT = 1024  # program times are integers in 1/1024 s: exact in binary floating point
@@ -69,15 +69,22 @@ class _ScopeRec:
         self.timeout_raised = False
         self.own_cancel_calls = 0  # task.cancel(msg=<this scope's id>) calls observed
         self.foreign_pending_at_exit = False
-        self.shielded_when_cancelled: bool | None = None
+        self.env_depth = 0
+        self.outer_cancelled_at_exit = False
+        self.enclosing: list[_ScopeRec] = []
+        self.had_inner = False
 
 
 class RealRun:
     """Executes one program against the real backend and records what happened."""
 
-    def __init__(self, program: list, ext: int | None) -> None:
+    def __init__(self, program: list, ext: int | None, ext_turns: int = 0) -> None:
         self.program = program = json.loads(json.dumps(program))  # distinct list objects for every node
         self.ext = ext
+        self.ext_turns = ext_turns  # deliver the external cancel this many loop turns after its timer fired
+        self.nt_nested_cancel = False
+        self.nt_shield_pending = False
+        self.cross_task_cancel = False
         self.sids = scope_ids(program)
         self.marks: list[tuple[int, float, str]] = []  # (mark id, virtual time, task name)
         self.scopes: dict[int, _ScopeRec] = {}
@@ -94,9 +101,9 @@ class RealRun:
         self.spin_jumps = 0
         self.ticks = 0
         self.notes: set[str] = set()
-        self._child_no = 0
         self.loop: Any = None
         self.backend: Any = None
+        self._body_done = False
 
     # -- recording -------------------------------------------------------------------------------
 
@@ -165,6 +172,8 @@ class RealRun:
         elif op == "cancel":
             if env:
                 rec = env[-1 - (node[1] % len(env))]
+                if rec.host is not tc:
+                    self.cross_task_cancel = True
                 rec.obj.cancel()
         elif op == "resched":
             if env:
@@ -180,6 +189,8 @@ class RealRun:
                 raise
             finally:
                 tc.shield -= 1
+            if any(r.obj.cancel_called() for r in tc.scopes) or self.foreign_pending(tc):
+                self.nt_shield_pending = True
         elif op == "scope":
             await self._scope(node, env, tc)
         elif op == "group":
@@ -193,6 +204,8 @@ class RealRun:
         loop = self.loop
         sid = self.sids[id(node)]
         rec = _ScopeRec(sid, kind, tc)
+        rec.env_depth = len(env)
+        rec.enclosing = list(env)
         self.scopes[sid] = rec
         now = loop.time()
         d = math.inf if delay is None else secs(delay)
@@ -251,7 +264,13 @@ class RealRun:
         rec.exc_in = None if exc_in is None else type(exc_in).__name__
         rec.exc_out = None if exc_out is None else type(exc_out).__name__
         where = f"task {tc.name}: scope #{rec.sid} ({rec.kind})"
+        if rec.env_depth:
+            for outer in rec.enclosing:
+                outer.had_inner = True
+        if cc and (rec.env_depth or rec.had_inner):
+            self.nt_nested_cancel = True
         cancelled_in = isinstance(exc_in, asyncio.CancelledError)
+        rec.outer_cancelled_at_exit = any(r.obj.cancel_called() for r in tc.scopes)
         if caught and not cc:
             self.problem("caught-without-cancel", f"{where}: cancelled_caught() is True but cancel_called() is False", scope=rec.sid)
         if caught and not cancelled_in:
@@ -284,10 +303,10 @@ class RealRun:
 
     async def _group(self, node: list, env: list[_ScopeRec], tc: _TaskCtx) -> None:
         _, children, body = node
+        gid = self.sids[id(node)]
         async with self.backend.create_task_group() as tg:
-            for child in children:
-                self._child_no += 1
-                tg.start_soon(self._child, child, list(env), f"child{self._child_no}")
+            for i, child in enumerate(children):
+                tg.start_soon(self._child, child, list(env), child_name(gid, i))
             await self._body(body, env, tc)
 
     async def _child(self, prog: list, env: list[_ScopeRec], name: str) -> None:
@@ -308,8 +327,11 @@ class RealRun:
 
     # -- the program task ------------------------------------------------------------------------
 
-    def _ext_cancel(self, task: Any) -> None:
-        if task.done():
+    def _ext_cancel(self, task: Any, turns: int) -> None:
+        if task.done() or self._body_done:
+            return
+        if turns > 0:
+            self.loop.call_soon(self._ext_cancel, task, turns - 1)
             return
         self.ext_requested_at = self.loop.time()
         task.cancel()
@@ -335,7 +357,7 @@ class RealRun:
         entry = task.cancelling()
         handle = None
         if self.ext is not None:
-            handle = loop.call_at(loop.time() + secs(self.ext), self._ext_cancel, task)
+            handle = loop.call_at(loop.time() + secs(self.ext), self._ext_cancel, task, self.ext_turns)
         try:
             await self._body(self.program, [], tc)
             self.outcome = "ok"
@@ -345,6 +367,7 @@ class RealRun:
             self.outcome = f"error:{type(exc).__name__}"
             self.problem("unexpected-exception", f"program raised {type(exc).__name__}: {exc}", exc=repr(exc))
         finally:
+            self._body_done = True
             if handle is not None:
                 handle.cancel()
         self.end_time = loop.time()
@@ -443,3 +466,502 @@ class RealRun:
             "ticks": self.ticks,
             "problems": [str(p) for p in self.problems],
         }
+
+
+# ==============================================================================================
+# oracle glue
+
+
+import os  # noqa: E402
+
+from hypothesis import strategies as st  # noqa: E402
+
+from .. import scope_model  # noqa: E402
+from ..core import Check, Layer, Outcome  # noqa: E402
+
+# Confirmed defects of /repo (DESIGN.md section 4).  While a flag is True the shape is recognised (by the reference
+# interpreter on the program, and by its signature in the observed run) and the case is counted in an `excluded-*`
+# class instead of being judged, so that the search continues past it.  A case carrying "no_exclude": true (the
+# saved replays of the findings) is always judged.  VERIF_C13_NO_EXCLUDE=D5,D6 switches the exclusion off for a run.
+EXCLUDE_D5 = True  # a foreign task.cancel() and a hosted scope's own cancellation pending on one task together
+EXCLUDE_D6 = True  # a scope cancelled while its host task is suspended exits without a CancelledError passing it
+
+_off = {x.strip().upper() for x in (os.environ.get("VERIF_C13_NO_EXCLUDE") or "").split(",") if x.strip()}
+if "D5" in _off:
+    EXCLUDE_D5 = False
+if "D6" in _off:
+    EXCLUDE_D6 = False
+
+D5_KINDS = frozenset({"foreign-cancel-not-delivered", "external-cancel-lost", "leftover-cancelling", "child-not-cancelled"})
+D6_KINDS = frozenset({"leftover-cancelling"})
+
+MAX_NODES = 14
+MAX_DEPTH = 4
+MAX_CHILDREN = 2
+
+
+def _marks_same_task(body: list) -> list[int]:
+    out: list[int] = []
+    for node in body:
+        op = node[0]
+        if op == "mark":
+            out.append(node[1])
+        elif op == "scope":
+            out += _marks_same_task(node[3])
+        elif op == "shield":
+            out += _marks_same_task(node[1])
+        elif op == "group":
+            out += _marks_same_task(node[2])
+    return out
+
+
+def _shield_bodies(body: list) -> list[list]:
+    out: list[list] = []
+    for node in body:
+        op = node[0]
+        if op == "scope":
+            out += _shield_bodies(node[3])
+        elif op == "shield":
+            out.append(node[1])
+            out += _shield_bodies(node[1])
+        elif op == "group":
+            for c in node[1]:
+                out += _shield_bodies(c)
+            out += _shield_bodies(node[2])
+    return out
+
+
+def _real_sig_d5(real: RealRun) -> bool:
+    """a scope swallowed a CancelledError while a task.cancel() it did not issue was pending on its host task"""
+    return any(r.caught and r.foreign_pending_at_exit for r in real.scopes.values())
+
+
+def _real_sig_d6(real: RealRun) -> bool:
+    """a scope issued task.cancel() calls and exited without any CancelledError passing through its __exit__"""
+    return any(r.cancel_called and r.own_cancel_calls > 0 and r.exc_in != "CancelledError" for r in real.scopes.values())
+
+
+def _check_shields(real: RealRun) -> None:
+    reached = {m for m, _, _ in real.marks}
+    for body in _shield_bodies(real.program):
+        marks = _marks_same_task(body)
+        if marks and marks[0] in reached:
+            missing = [m for m in marks if m not in reached]
+            if missing:
+                real.problem(
+                    "shield",
+                    f"ignore_cancellation body started (mark {marks[0]}) but did not run to completion: marks {missing} missing",
+                    missing=missing,
+                )
+
+
+def _compare(real: RealRun, model: scope_model.ModelResult) -> None:
+    diffs: list[str] = []
+    if real.outcome != model.outcome:
+        diffs.append(f"program outcome: observed {real.outcome}, reference {model.outcome}")
+    observed: dict[str, list[tuple[int, float]]] = {}
+    for mid, t, name in real.marks:
+        observed.setdefault(name, []).append((mid, t))
+    names = sorted(set(observed) | {n for n, v in model.marks.items() if v})
+    for name in names:
+        o = observed.get(name, [])
+        e = [(mid, secs(t)) for mid, t in model.marks.get(name, [])]
+        if o != e:
+            diffs.append(f"marks of task {name}: observed {o}, reference {e}")
+    for sid in sorted(set(real.scopes) | set(model.scopes)):
+        r = real.scopes.get(sid)
+        m = model.scopes.get(sid)
+        if r is None or m is None or r.obj is None:
+            diffs.append(f"scope #{sid}: entered in {'reference' if r is None or r.obj is None else 'observed run'} only")
+            continue
+        o = (r.cancel_called, r.caught, r.exited_at)
+        e = (m["cancel_called"], m["caught"], None if m["exited_at"] is None else secs(m["exited_at"]))
+        if o != e:
+            diffs.append(f"scope #{sid} ({r.kind}) (cancel_called, cancelled_caught, exit time): observed {o}, reference {e}")
+    och = {c.name: c.outcome for c in real.children}
+    ech = {n: o for n, o in model.children.items()}
+    if och != ech:
+        diffs.append(f"children outcomes: observed {och}, reference {ech}")
+    if real.end_time is not None and model.end_time is not None and real.end_time != secs(model.end_time):
+        diffs.append(f"end time: observed {real.end_time}, reference {secs(model.end_time)}")
+    if diffs:
+        raise Violation(
+            "model-mismatch",
+            "observed behaviour differs from the reference semantics: " + "; ".join(diffs[:4]),
+            diffs=diffs,
+            observed=real.summary(),
+        )
+
+
+def _validate(case: dict) -> None:
+    prog = case["program"]
+    n = scope_model.count_nodes(prog) - scope_model.count_ops(prog, "mark")
+    if n > MAX_NODES + 4 or scope_model.depth(prog) > MAX_DEPTH:
+        raise HarnessError(f"C13 case outside its bounds: {n} nodes, depth {scope_model.depth(prog)}")
+
+
+def _run(case: dict, exact_layer: bool) -> Outcome:
+    _validate(case)
+    program = case["program"]
+    ext = case.get("ext")
+    real = RealRun(program, ext, case.get("ext_turns", 0)).run()
+    hints = {sid: r.caught for sid, r in real.scopes.items()}
+    model = scope_model.simulate(real.program, ext, hints)
+    classes: list[str] = []
+
+    judged_anyway = bool(case.get("no_exclude"))
+    d5 = model.d5_shape or _real_sig_d5(real)
+    d6 = model.d6_shape or _real_sig_d6(real)
+    waived: set[str] = set()
+    skip_exact = False
+    if d5:
+        classes.append("shape-D5")
+        if EXCLUDE_D5 and not judged_anyway:
+            # the foreign cancel may be swallowed and lost (D5): do not judge its delivery nor the trace, keep the rest
+            waived |= D5_KINDS
+            skip_exact = True
+            classes.append("excluded-D5" if model.d5_shape else "excluded-D5-signature-only")
+    if d6:
+        classes.append("shape-D6")
+        if EXCLUDE_D6 and not judged_anyway:
+            # the scope's own task.cancel() calls stay on the task (D6): do not judge the count, keep everything else
+            waived |= D6_KINDS
+            classes.append("excluded-D6" if model.d6_shape else "excluded-D6-signature-only")
+
+    _check_shields(real)
+    problems = [p for p in real.problems if p.kind not in waived]
+    if problems:
+        v = problems[0]
+        raise Violation(
+            v.kind,
+            v.message,
+            **v.details,
+            all_problems=[str(p) for p in real.problems],
+            observed=real.summary(),
+            shape_d5=d5,
+            shape_d6=d6,
+        )
+
+    if model.tie:
+        classes.append("tie")
+    if model.racy:
+        classes.append("loop-turn-race")
+    if model.stuck:
+        raise HarnessError(f"C13 reference interpreter got stuck on {program!r}: {model.notes}")
+    if skip_exact:
+        pass
+    elif exact_layer or model.exact():
+        if model.exact():
+            if real.spin_jumps and not model.poller_expected:
+                raise HarnessError(
+                    f"virtual loop made {real.spin_jumps} busy-run clock jump(s) where the reference expects no poller: {program!r}"
+                )
+            _compare(real, model)
+            classes.append("exact-compared")
+        else:
+            classes.append("exact-skipped")
+    if model.used_hint:
+        classes.append("inner-or-outer-choice")
+
+    # generator distribution
+    if real.ext_requested_at is not None:
+        classes.append("ext-requested")
+        classes.append("ext-delivered" if real.outcome == "cancelled" else "ext-pending-at-end")
+    if real.spin_jumps:
+        classes.append("poller")
+    if real.children:
+        classes.append("children")
+        if any(c.outcome == "cancelled" for c in real.children):
+            classes.append("child-cancelled")
+    if any(r.caught for r in real.scopes.values()):
+        classes.append("scope-caught")
+    if any(r.cancel_called and not r.caught and r.exc_in == "CancelledError" for r in real.scopes.values()):
+        classes.append("cancelled-scope-propagated")
+    if any(r.cancel_called and r.exc_in is None for r in real.scopes.values()):
+        classes.append("cancelled-no-checkpoint")
+    if any(r.timeout_raised for r in real.scopes.values()):
+        classes.append("timeout-raised")
+    if real.nt_nested_cancel:
+        classes.append("nested-cancel")
+    if real.nt_shield_pending:
+        classes.append("shield-with-pending-cancel")
+    if scope_model.count_ops(program, "resched"):
+        classes.append("has-resched")
+    if case.get("ext_turns"):
+        classes.append("ext-turn-offset")
+    if case.get("repaired_d6"):
+        classes.append("repaired-D6")
+    if real.cross_task_cancel:
+        classes.append("cross-task-scope-cancel")
+    if any(r.caught and r.outer_cancelled_at_exit for r in real.scopes.values()):
+        classes.append("inner-caught-while-outer-cancelled")
+    classes.append(f"scope-depth-{min(scope_model.scope_depth(program), 4)}")
+    nontrivial = (scope_model.scope_depth(program) >= 2 and real.nt_nested_cancel) or real.nt_shield_pending
+    note = f"outcome={real.outcome} marks={[(m, t) for m, t, _ in real.marks][:12]}"
+    return Outcome(nontrivial=nontrivial, classes=tuple(classes), note=note)
+
+
+def run_invariants(case: dict) -> Outcome:
+    return _run(case, exact_layer=False)
+
+
+def run_exact(case: dict) -> Outcome:
+    return _run(case, exact_layer=True)
+
+
+# ==============================================================================================
+# generator
+
+
+def nominal_duration(body: list) -> int:
+    """virtual time the body takes when nothing interrupts it (sleeps of one task add up, children run in parallel)"""
+    total = 0
+    for node in body:
+        op = node[0]
+        if op == "sleep":
+            total += node[1]
+        elif op == "scope":
+            total += nominal_duration(node[3])
+        elif op == "shield":
+            total += nominal_duration(node[1])
+        elif op == "group":
+            total += max([nominal_duration(c) for c in node[1]] + [nominal_duration(node[2])])
+    return total
+
+
+class _Gen:
+    def __init__(self, draw: st.DrawFn, ties: bool, budget: int) -> None:
+        self.draw = draw
+        self.ties = ties
+        self.budget = budget
+        self.children_left = MAX_CHILDREN
+        self.timer_no = 0
+
+    def delay(self, span: int) -> int | None:
+        """deadline offset of a scope / reschedule; `span` = nominal duration (units) of what it covers, so that most
+        deadlines fall inside the covered code"""
+        draw = self.draw
+        whole = span // UNIT
+        mode = draw(st.sampled_from(["in"] * 6 + ["beyond"] * 2 + ["none", "passed"]))
+        if mode == "none":
+            return None
+        if mode == "passed":
+            return 0
+        if mode == "in":
+            k = draw(st.integers(0, max(whole - 1, 0)))
+        else:
+            k = whole + draw(st.integers(0, 2))
+        if self.ties:
+            # deliberately on the grid of the sleeps: deadlines coincide with wake-ups, other deadlines, the external cancel
+            return max(k, 1 if mode == "beyond" else 0) * UNIT + draw(st.sampled_from([0, 0, 0, UNIT // 2]))
+        j = self.timer_no
+        self.timer_no += 1
+        if j >= 8:
+            return None
+        return k * UNIT + (UNIT >> (3 + j))  # unique binary fraction: distinct timers never coincide
+
+    def sleep(self) -> int:
+        draw = self.draw
+        k = draw(st.sampled_from([0, 1, 1, 2, 2, 3, 4, 6]))
+        if self.ties and k and draw(st.integers(0, 3)) == 0:
+            return k * UNIT + UNIT // 2
+        return k * UNIT
+
+    def checkpoint(self) -> list:
+        self.budget -= 1
+        if self.draw(st.integers(0, 2)) == 0:
+            return ["cp"]
+        return ["sleep", self.sleep()]
+
+    def body(self, depth: int, nenv: int, max_items: int = 4, child: bool = False) -> list:
+        draw = self.draw
+        n = draw(st.integers(1, max_items))
+        out: list = []
+        for _ in range(n):
+            if self.budget <= 0:
+                break
+            nodes = self.nodes(depth, nenv, child)
+            out += nodes
+            # a checkpoint right after a compound statement or a cancel is where pending cancellations show
+            if nodes[-1][0] in ("shield", "scope", "group", "cancel", "resched") and self.budget > 0 and draw(st.integers(0, 9)) < 6:
+                out.append(self.checkpoint())
+        return out
+
+    def nodes(self, depth: int, nenv: int, child: bool) -> list[list]:
+        draw = self.draw
+        compound = depth < MAX_DEPTH and self.budget >= 2
+        if depth == 0:
+            choices = ["sleep"] * 2 + ["cp"]
+            if compound:
+                choices += ["scope"] * 10 + ["shield"] * 2 + ["group"] * (2 if self.children_left and self.budget >= 3 else 0)
+        else:
+            choices = ["sleep"] * 5 + ["cp"] * 2
+            if compound:
+                choices += ["scope"] * 5 + ["shield"] * 3 + ["shielded-sleep"] * 2
+                if self.children_left > 0 and self.budget >= 3:
+                    choices += ["group"] * 2
+            if nenv > 0:
+                choices += ["cancel"] * (4 if child else 2) + ["resched"] * 2
+            if nenv > 1 and self.budget >= 2:
+                choices += ["double-cancel"]
+        op = draw(st.sampled_from(choices))
+        self.budget -= 1
+        if op == "sleep":
+            return [["sleep", self.sleep()]]
+        if op == "cp":
+            return [["cp"]]
+        if op == "cancel":
+            return [["cancel", draw(st.integers(0, nenv - 1))]]
+        if op == "double-cancel":
+            self.budget -= 1
+            a = draw(st.integers(0, nenv - 1))
+            b = draw(st.integers(0, nenv - 2))
+            return [["cancel", a], ["cancel", b if b < a else b + 1]]
+        if op == "resched":
+            return [["resched", draw(st.integers(0, nenv - 1)), self.delay(draw(st.integers(0, 5)) * UNIT)]]
+        if op == "scope":
+            kind = draw(st.sampled_from(scope_model.SCOPE_KINDS))
+            body = self.body(depth + 1, nenv + 1, child=child)
+            return [["scope", kind, self.delay(nominal_duration(body)), body]]
+        if op == "shield":
+            return [["shield", self.body(depth + 1, nenv, child=child)]]
+        if op == "shielded-sleep":
+            self.budget -= 1
+            return [["shield", [["sleep", draw(st.integers(1, 6)) * UNIT]]]]
+        nchildren = draw(st.integers(1, self.children_left))
+        self.children_left -= nchildren
+        children = [self.body(depth + 1, nenv, max_items=3, child=True) for _ in range(nchildren)]
+        return [["group", children, self.body(depth + 1, nenv, max_items=3, child=child) if self.budget > 0 else []]]
+
+
+def _scope_nodes(program: list) -> dict[int, list]:
+    """scope number (scope_model.scope_ids order) -> node"""
+    out: dict[int, list] = {}
+
+    def walk(body: list) -> None:
+        for node in body:
+            op = node[0]
+            if op == "scope":
+                out[len(out)] = node
+                walk(node[3])
+            elif op == "shield":
+                walk(node[1])
+            elif op == "group":
+                for c in node[1]:
+                    walk(c)
+                walk(node[2])
+
+    walk(program)
+    return out
+
+
+def repair_d6(program: list, ext: int | None) -> tuple[list, int]:
+    """EXCLUDE_D6 by construction: where the reference interpreter says a scope would be cancelled while its task is
+    suspended and then exit with no interrupt passing it (the shape of defect D6), change the program so that it does
+    not: a scope around the shield gets a trailing checkpoint (the pending cancellation is then delivered inside it),
+    a scope inside the shield loses its deadline.  Returns (program, number of repairs)."""
+    repairs = 0
+    for _ in range(4):
+        model = scope_model.simulate(program, ext)
+        if not model.d6_scopes:
+            break
+        nodes = _scope_nodes(program)
+        for sid, shielded in model.d6_scopes:
+            node = nodes[sid]
+            repairs += 1
+            if shielded:
+                node[2] = None
+            else:
+                node[3].append(["cp"])
+    return program, repairs
+
+
+def add_marks(program: list) -> list:
+    """observation probes: a mark at the start of every body and after every other node, numbered in preorder"""
+    counter = [0]
+
+    def mark() -> list:
+        counter[0] += 1
+        return ["mark", counter[0]]
+
+    def walk(body: list) -> list:
+        out = [mark()]
+        for node in body:
+            op = node[0]
+            if op == "scope":
+                node = ["scope", node[1], node[2], walk(node[3])]
+            elif op == "shield":
+                node = ["shield", walk(node[1])]
+            elif op == "group":
+                node = ["group", [walk(c) for c in node[1]], walk(node[2])]
+            out.append(node)
+            out.append(mark())
+        return out
+
+    return walk(program)
+
+
+@st.composite
+def st_case(draw: st.DrawFn, tier: str, ties: bool | None) -> dict:
+    if ties is None:
+        ties = draw(st.booleans())
+    budget = draw(st.integers(4, MAX_NODES))
+    g = _Gen(draw, ties, budget)
+    program = g.body(0, 0)
+    ext: int | None = None
+    turns = 0
+    if draw(st.integers(0, 9)) < 5:
+        k = draw(st.integers(0, nominal_duration(program) // UNIT + 1))
+        if ties:
+            ext = k * UNIT + draw(st.sampled_from([0, 0, UNIT // 2]))
+            turns = draw(st.sampled_from([0, 0, 1, 2, 3]))
+        else:
+            ext = k * UNIT + draw(st.sampled_from([UNIT // 4, 3 * UNIT // 4]))
+    case: dict[str, Any] = {"program": None, "ext": ext}
+    if EXCLUDE_D6:
+        program = json.loads(json.dumps(program))
+        program, repairs = repair_d6(program, ext)
+        if repairs:
+            case["repaired_d6"] = repairs
+    case["program"] = add_marks(program)
+    if turns:
+        case["ext_turns"] = turns
+    return case
+
+
+def st_exact(tier: str) -> Any:
+    return st_case(tier, False)
+
+
+def st_invariants(tier: str) -> Any:
+    return st_case(tier, None)
+
+
+CHECK = Check(
+    id="C13",
+    level="exploration",
+    rule=(
+        "case = program AST (<= 14 nodes besides the observation marks, depth <= 4, <= 2 task-group children) over "
+        "Sleep/Checkpoint/Scope(5 public constructors, deadline)/Shield/scope.cancel()/scope.reschedule()/task-group "
+        "children + optional external task.cancel() at a generated virtual time (and loop-turn offset in the tie class), "
+        "run on the virtual-time loop; non-trivial = (lexical scope nesting >= 2 and a scope exits with cancel_called() "
+        "while another scope is active or was active inside it) or (an ignore_cancellation block ends with a cancellation "
+        "pending on its task); distinct = sha1 of the canonical case JSON"
+    ),
+    layers=[
+        Layer("invariants", st_invariants, run_invariants, {"quick": 700, "thorough": 4000}),
+        Layer("exact", st_exact, run_exact, {"quick": 900, "thorough": 5000}),
+    ],
+    assumptions=[
+        "asyncio backend only (trio is not installed); time is the virtual clock of pbt.vloop, busy-run clock jumps are asserted to "
+        "happen only where the reference interpreter expects a cancelled scope polling task.cancel()",
+        "a TimeoutError raised by timeout()/timeout_at() is caught right outside its with-block so that programs keep a single "
+        "exception type (CancelledError); 'TimeoutError iff cancelled_caught()' is still checked on every timeout scope",
+        "exact comparison is skipped (invariants still checked) when the reference interpreter reports two timers due at the same "
+        "virtual instant or a cross-task cancellation racing with a bare checkpoint/unstarted task in the same instant",
+        "when two nested scopes of one task are both cancelled the statement lets either catch; the reference takes that one choice "
+        "from the observed cancelled_caught() and predicts everything else",
+        "task.cancel() calls are observed through a logging asyncio.Task subclass installed with loop.set_task_factory (harness-owned loop)",
+        "shapes of the confirmed defects D5/D6 are counted in excluded-* classes and not judged while EXCLUDE_D5/EXCLUDE_D6 are True",
+    ],
+)
